@@ -262,8 +262,9 @@ PROPS['C18'] = {
 }
 PROPS['C01'] = {
     'rules': [R(pa.rule_SS1, scope=INT_PROTOCOLS), R(pa.rule_NL1, scope=INT_PROTOCOLS), R(ss.rule_SS4), R(ss.rule_SS6), R(pc.rule_PC9, scope=['Runtime.' + x for x in INT_PROTOCOLS] + ['Runtime._randoms']),
-              R(pc.rule_PC1, scope=['Runtime.' + x for x in INT_PROTOCOLS]), R(ss.rule_PR1), R(pa.rule_MK5), R(op.rule_OP6)],
-    'floors': {'SS1': 25, 'NL1': 12, 'SS4': 9, 'SS6': 9, 'PC9': 8, 'PC1': 20, 'PR1': 12, 'MK5': 5, 'OP6': 14},
+              R(pc.rule_PC1, scope=['Runtime.' + x for x in INT_PROTOCOLS]), R(ss.rule_PR1), R(pa.rule_MK5), R(op.rule_OP6), R(sn.rule_CP1),
+              R(sg.rule_AW1, scope='scalar')],
+    'floors': {'SS1': 25, 'NL1': 12, 'SS4': 9, 'SS6': 9, 'PC9': 8, 'PC1': 20, 'PR1': 12, 'MK5': 5, 'OP6': 14, 'CP1': 10, 'AW1': 10},
     'explanation': 'Plumbing clauses for the integer protocols (mul, prod, all, in_prod, scalar_mul, if_else/if_swap lists, matrix_prod, sgn, lsb, _mod, '
                    'trailing_zeros, is_zero_public, _is_zero, gauss, ...): every product of two shared values is degree-reduced or opened with 2t '
                    'before reuse (SS1); shares are only combined linearly -- no bitwise or comparison operator is applied to a share as if it were '
@@ -273,7 +274,9 @@ PROPS['C01'] = {
                    'masked-opening protocols are sums of bound // (number of contributions) sized terms, so that masked values do not wrap around the '
                    'modulus (MK5); comparisons and arithmetic reached through NumPy scalars on the left (np.less(10, a)) are delegated in reflected form (OP6). '
                    'These are the parts '
-                   'that differ between m = 1 and m > 1.',
+                   'that differ between m = 1 and m > 1. The list operations (sum, prod, all, schur_prod, scalar_mul, vector_add/sub, gauss, ..) do their in-place work on a copy: the parameter is re-bound on every path '
+                   'before the first in-place statement, also before it is handed to a private in-place helper (CP1); field-valued results of _random/_randoms, which are '
+                   'Futures without PRSS, are awaited under options.no_prss before use (AW1).',
     'assumptions': ['the integer identities of the protocols (Toft comparison, lsb, divsteps) are correct as algorithms: not decided here'],
     'level': 'Static abstract interpretation and routing analysis restricted to the integer protocol coroutines. Decides necessary conditions that the '
              'single-party test suite cannot exercise; does not decide the arithmetic identities.',
@@ -391,18 +394,18 @@ PROPS['C28'] = {
     'level': 'Static convention analysis of mpyc.secgroups -- exactly the recombination trick the single-party suite cannot exercise.',
 }
 PROPS['C37'] = {
-    'rules': [R(sg.rule_TC1), R(sg.rule_SG1), R(sg.rule_SG2), R(pc.rule_PC1), R(pa.rule_SS1), R(pa.rule_NL1), R(ss.rule_SS3), R(ss.rule_SS7), R(ss.rule_PR1), R(fx.rule_FX1), R(fx.rule_FX3), R(op.rule_OP6), R(op.rule_OP7), R(sn.rule_SN1), R(sn.rule_SN2), R(sn.rule_SN3)],
-    'floors': {'OP7': 12, 'TC1': 10, 'SG1': 10, 'SG2': 1, 'PC1': 40, 'SS1': 60, 'NL1': 25, 'SS3': 9, 'SS7': 8, 'PR1': 12, 'FX1': 60, 'FX3': 15, 'OP6': 14, 'SN1': 5, 'SN2': 2, 'SN3': 3},
+    'rules': [R(sg.rule_TC1), R(sg.rule_SG1), R(sg.rule_SG2), R(pc.rule_PC1), R(pa.rule_SS1), R(pa.rule_NL1), R(ss.rule_SS3), R(ss.rule_SS7), R(ss.rule_PR1), R(fx.rule_FX1), R(fx.rule_FX3), R(op.rule_OP6), R(op.rule_OP7), R(sg.rule_AW1), R(sn.rule_SN1), R(sn.rule_SN2), R(sn.rule_SN3)],
+    'floors': {'OP7': 12, 'AW1': 18, 'TC1': 10, 'SG1': 10, 'SG2': 1, 'PC1': 40, 'SS1': 60, 'NL1': 25, 'SS3': 9, 'SS7': 8, 'PR1': 12, 'FX1': 60, 'FX3': 15, 'OP6': 14, 'SN1': 5, 'SN2': 2, 'SN3': 3},
     'explanation': 'Sibling and plumbing clauses for code the suite cannot even import (no numpy): array coroutines agree with their scalar siblings on '
                    'mask bounds (as linear forms), opening thresholds, option/field-size case splits, PRSS calls and head-room (SG1); a type that is an '
                    'array type is never tested against a scalar secure class (TC1); integral= is passed to polymorphic constructors only under a '
                    'fixed-point guard (SG2); a NumPy ufunc applied to (plain, secure) operands is delegated in reflected form -- mirrored comparison or '
-                   '__r<op>__ method, exchanged operands only for symmetric operators (OP6); a scalar operator method establishes what its operand is before handing it to a runtime protocol, so that scalar-with-array broadcasts are answered by the array\'s own method (OP7); np_sort applies the comparator schedule of _sort, exchanges pairs in '
+                   '__r<op>__ method, exchanged operands only for symmetric operators (OP6); a scalar operator method establishes what its operand is before handing it to a runtime protocol, so that scalar-with-array broadcasts are answered by the array\'s own method (OP7); field-valued results of the local random sources, which are Futures without PRSS, are awaited under options.no_prss before use (AW1); np_sort applies the comparator schedule of _sort, exchanges pairs in '
                    'ascending orientation and works on a copy (SN1-SN3); the np_* coroutines satisfy the pc, degree, linearity and flag rules (PC1, SS1, NL1, FX1, FX3); array '
                    'sharing, recombination and PRSS agree with the list versions (SS3, SS7, PR1).',
     'assumptions': ['numpy semantics of the array operations (broadcasting, matmul) are as documented'],
-    'level': 'Static sibling-agreement and typestate analysis of the np_* half of the runtime. Found five genuine defects (np_roll without pc, '
-             'integral= for integer arrays, np_trunc head-room, reflected ufunc operands, scalar-vs-array comparisons), all repaired.',
+    'level': 'Static sibling-agreement and typestate analysis of the np_* half of the runtime. Found six genuine defects (np_roll without pc, '
+             'integral= for integer arrays, np_trunc head-room, reflected ufunc operands, scalar-vs-array comparisons, np_lsb without PRSS), all repaired.',
 }
 PROPS['C39'] = {
     'rules': [R(cf.rule_CF1), R(cf.rule_CF2)],
